@@ -118,7 +118,9 @@ def real_run(case):
             """ops "simF" / "tcF": the solver reports failure.  `solve_ivp` runs as usual (its argument validation
             included); `res.success` is turned off when it hands the result back, so the library's own failure branch
             (`Result(IntegrationFailure())`, no advance of t0 / y0) is what runs.  A zero-length span cannot fail."""
-            if not fail_next[0]:
+            idx = fail_plan[1]
+            fail_plan[1] += 1
+            if not (fail_next[0] or (fail_plan[0] is not None and idx == fail_plan[0])):
                 return super().integrate_time_course(time_points=time_points)
             import mxlpy.integrators.int_scipy as mod
 
@@ -145,6 +147,7 @@ def real_run(case):
                 mod.spi = real_spi
 
     fail_next = [False, 0]
+    fail_plan = [None, 0]  # ops "protoF" / "ptcF": the solver call (= protocol step) of this op that fails; calls so far
     # constructor options (public parameters): explicit y0, use_jacobian, test_run, integrator keyword arguments
     ctor = case.get("ctor") or {}
     integ = Recording
@@ -168,6 +171,7 @@ def real_run(case):
         try:
             touched = None
             fail_next[0] = kind in ("simF", "tcF")
+            fail_plan[0], fail_plan[1] = (op[-1] if kind in ("protoF", "ptcF") else None), 0
             if kind in ("sim", "simF"):
                 sim.simulate(float(F(op[1])), steps=op[2])
             elif kind == "scale":
@@ -201,13 +205,13 @@ def real_run(case):
             elif kind == "clear":
                 snaps.append(_snapshot(sim))
                 sim.clear_results()
-            elif kind == "proto":
+            elif kind in ("proto", "protoF"):
                 prot = make_protocol([(float(F(d)), {k: float(F(v)) for k, v in kv}) for d, kv in op[1]])
                 if op[2] is None:
                     sim.simulate_protocol(prot)
                 else:
                     sim.simulate_protocol(prot, time_points_per_step=op[2])
-            elif kind == "ptc":
+            elif kind in ("ptc", "ptcF"):
                 prot = make_protocol([(float(F(d)), {k: float(F(v)) for k, v in kv}) for d, kv in op[1]])
                 arr = np.array([float(F(t)) for t in op[2]], dtype=float)
                 keep, keep_prot = arr.copy(), prot.copy(deep=True)
@@ -225,6 +229,7 @@ def real_run(case):
         except Exception as e:  # noqa: BLE001
             outs.append("other:" + type(e).__name__)
         fail_next[0] = False
+        fail_plan[0] = None
         if kind == "steady":
             got = log[n0:]
             k = got[0] if got else None
@@ -389,7 +394,7 @@ def _dyadic_steps(n):
 
 def is_inexact(case):
     """default / non-power-of-two step counts: np.linspace's grid is rounded, compare the index to 1e-9"""
-    return any(op[0] in ("sim", "proto") and not _dyadic_steps(op[2]) for op in case["ops"])
+    return any(op[0] in ("sim", "proto", "protoF") and not _dyadic_steps(op[2]) for op in case["ops"])
 
 
 def assemble(case, real, drv):
@@ -651,7 +656,7 @@ def gen_random(rng, allow_steady=True, min_len=3, max_len=8):
 
 def shape_of(case):
     ab = {"sim": "S", "tc": "T", "steady": "Y", "par": "P", "var": "V", "clear": "C", "proto": "R", "ptc": "Q",
-          "simF": "s", "tcF": "t", "scale": "X"}
+          "simF": "s", "tcF": "t", "scale": "X", "protoF": "r", "ptcF": "q"}
     pre = ""
     if case.get("y0"):
         pre += "y0="
@@ -751,6 +756,14 @@ def run(ctx):
     ex = list(exhaustive_cases(3))
     if thorough:  # all length-4 histories over a reduced alphabet
         ex += [c for c in exhaustive_cases(4, alpha=small_alphabet()) if len(c["ops"]) == 4]
+    # 1a. rejected calls in the middle of a history (round 4b): an unknown parameter name next to a known one in
+    #     update_parameters / scale_parameters (all-or-nothing KeyError), a variable override naming an unknown variable
+    #     (silently ignored by the library), a refused / empty / unsorted continuation — every a; X; b over the 9-op alphabet
+    rejected = [["par", [["k", "2"], ["nope", "1"]]], ["scale", [["u", "2"], ["nope", "2"]]], ["par", [["nope", "1"]]],
+                ["var", [["ghost", "1"]]], ["var", [["x", "1"], ["ghost", "2"]]], ["tc", []], ["tc", ["4", "3"]], ["sim", "0", 2],
+                ["sim", "3", 0]]
+    sa = small_alphabet()
+    ex += [{"pars": PARS0, "ops": [list(a), list(x), list(b)]} for x in rejected for a in sa for b in sa]
     ctx.exhaustive = True
     for i in range(0, len(ex), 800):
         process(ctx, ex[i:i + 800])
@@ -784,7 +797,7 @@ def replay(ctx, rp):
         from . import c04grid
 
         return c04grid.replay(ctx, case)
-    if any(o[0] in ("proto", "ptc") for o in case["ops"]):
+    if any(o[0] in ("proto", "ptc", "protoF", "ptcF") for o in case["ops"]):
         from . import c14
 
         return c14.replay(ctx, rp)
